@@ -301,3 +301,34 @@ theorem itp_vars_shared (A B) (inA inB : Var → Bool) : ∀ n : Node, n.WF A B 
       · exact i2 v hv
       · rw [hv]; exact hp
 end Osmt.Itp
+
+namespace Osmt.Itp
+theorem wf_of_structOk (A B : Asg → Prop) : ∀ n : Node, n.structOk = true → n.leavesOk A B → n.WF A B
+  | .leafA c lab, hs, hl => by
+    simp only [Node.structOk, List.all_eq_true] at hs
+    exact ⟨hl, hs⟩
+  | .leafB c lab, hs, hl => by
+    simp only [Node.structOk, List.all_eq_true] at hs
+    exact ⟨hl, hs⟩
+  | .res n1 n2 p, hs, hl => by
+    simp only [Node.structOk, Bool.and_eq_true, List.all_eq_true, List.any_eq_true, Bool.or_eq_true, bne_iff_ne, ne_eq,
+      Bool.not_eq_true', beq_iff_eq] at hs
+    obtain ⟨⟨⟨⟨⟨h1, h2⟩, hp1⟩, hp2⟩, he1⟩, he2⟩ := hs
+    refine ⟨wf_of_structOk A B n1 h1 hl.1, wf_of_structOk A B n2 h2 hl.2, ?_, ?_, ?_, ?_⟩
+    · intro l hl' hv
+      rcases hp1 l hl' with h | h
+      · exact absurd hv h
+      · exact h
+    · intro l hl' hv
+      rcases hp2 l hl' with h | h
+      · exact absurd hv h
+      · exact h
+    · obtain ⟨l, hl', hv⟩ := he1; exact ⟨l, hl', hv⟩
+    · obtain ⟨l, hl', hv⟩ := he2; exact ⟨l, hl', hv⟩
+
+/-- what the executable check of a labelled refutation establishes -/
+theorem checked_refutation_interpolant (A B : Asg → Prop) (n : Node) (hs : n.structOk = true) (hl : n.leavesOk A B)
+    (hempty : n.clause = []) :
+    (∀ σ, A σ → n.itp.eval σ = true) ∧ (∀ σ, B σ → n.itp.eval σ = false) :=
+  root_interpolant A B n (wf_of_structOk A B n hs hl) hempty
+end Osmt.Itp
